@@ -10,11 +10,17 @@ namespace TbbVerif.C04
 def Pc.inReg : Pc → Bool
   | .cLockProp _ | .cRecheck _ | .cEpoch _ | .cLockList _ _ | .cLoad1 _ _ _ _ | .cLoad2 _ _ _ _ | .cPaint _ _ _ _ _
   | .cReadG _ _ | .cSync _ _ _ | .cUnlockList _ _ | .cUnlockProp _ | .cUnlockReg _ => true
+  | .gUnlock | .xUnlock => true              -- a thread entering / leaving the registry
   | _ => false
 
 /-- the list index a canceller is working on while it holds that list's mutex -/
 def Pc.walkIdx : Pc → Option Nat
   | .cLoad1 _ i _ _ | .cLoad2 _ i _ _ | .cPaint _ i _ _ _ | .cReadG _ i | .cSync _ i _ | .cUnlockList _ i => some i
+  | _ => none
+
+/-- the list index a canceller is about to lock, holds, or has just released -/
+def Pc.atList : Pc → Option Nat
+  | .cLockList _ i | .cLoad1 _ i _ _ | .cLoad2 _ i _ _ | .cPaint _ i _ _ _ | .cReadG _ i | .cSync _ i _ | .cUnlockList _ i => some i
   | _ => none
 
 /-- pcs of the thread that won the created→locked CAS on `x` and has not yet published the final state, with the
@@ -63,6 +69,16 @@ structure Struct (reg : List Nat) (s : St) : Prop where
   lmxWalk : ∀ t i L, (s.pc t).walkIdx = some i → reg[i]? = some L → s.lmx L = some t
   lmxBind : ∀ t x p sn, s.pc t = .bRegU x p sn → s.lmx t = some t
   lmxDes : ∀ t x L, s.pc t = .dUnlock x → s.lst x = some L → s.lmx L = some t
+  lmxOrph : ∀ t, s.pc t = .xOrphU → s.lmx t = some t
+  /-- registry membership: only threads of `reg` ever register; binders are registered; the propagator walks registered
+  threads; a thread that never registered has an empty list; contexts in the list of a thread that left are marked -/
+  regPc : ∀ t, s.pc t = .gLock → t ∈ reg ∧ s.act t = false ∧ s.wasReg t = false
+  actReg : ∀ t, s.act t = true → t ∈ reg
+  actWas : ∀ t, s.act t = true → s.wasReg t = true
+  bindAct : ∀ t, (s.pc t).isBind = true → s.act t = true
+  walkAct : ∀ t i L, (s.pc t).atList = some i → reg[i]? = some L → s.act L = true
+  notWasEmpty : ∀ L, s.wasReg L = false → s.items L = []
+  ocItems : ∀ L x, x ∈ s.items L → s.act L = false → s.oc x = true
   /-- only registered threads bind -/
   bindReg : ∀ t, (s.pc t).isBind = true → t ∈ reg
   /-- parent pointers: set once, consistent with the depth ghost -/
@@ -135,14 +151,14 @@ theorem destroyOk_spec {reg : List Nat} {s : St} {x : Nat} (h : destroyOk reg s 
   exact ⟨this.1.1, this.1.2, this.2⟩
 
 theorem bindOk_spec {reg : List Nat} {s : St} {t x : Nat} {p : Option Nat} (h : bindOk reg s t x p = true) :
-    t ∈ reg ∧ s.cst x ≠ .dead ∧ s.dying x = false ∧
+    t ∈ reg ∧ s.act t = true ∧ s.cst x ≠ .dead ∧ s.dying x = false ∧
     ∀ q, p = some q → (s.cst q = .bound ∨ s.cst q = .isolated) ∧ s.dying q = false ∧ q ≠ x := by
   unfold bindOk at h
   cases p with
-  | none => simp at h; exact ⟨h.1.1, h.1.2, h.2, by simp⟩
+  | none => simp at h; exact ⟨h.1.1.1, h.1.1.2, h.1.2, h.2, by simp⟩
   | some q =>
     simp at h
-    refine ⟨h.1.1.1, h.1.1.2, h.1.2, ?_⟩
+    refine ⟨h.1.1.1.1, h.1.1.1.2, h.1.1.2, h.1.2, ?_⟩
     intro q' hq'
     cases hq'
     exact ⟨h.2.1.1, h.2.1.2, h.2.2⟩
@@ -185,8 +201,9 @@ theorem force_aux (x p : Nat) :
     (Pc.bHintL x p).owner = some (x, some p) ∧ (Pc.bHintL x p).owns = some x ∧ (Pc.bHintL x p).registered = none ∧
     (Pc.bHintL x p).snapBranch = none ∧ (Pc.bHintL x p).rootBranch = none ∧ (Pc.bHintL x p).destroying = none ∧
     (Pc.bHintL x p).inReg = false ∧ (Pc.bHintL x p).walkIdx = none ∧ (Pc.bHintL x p).isCancel = false ∧
-    (Pc.bHintL x p).isBind = true ∧ (Pc.bHintL x p).bindParent = some p ∧ (Pc.bHintL x p).bindTarget = some x := by
-  refine ⟨?_, ?_, ?_, ?_, ?_, ?_, ?_, ?_, ?_, ?_, ?_, ?_⟩
+    (Pc.bHintL x p).isBind = true ∧ (Pc.bHintL x p).bindParent = some p ∧ (Pc.bHintL x p).bindTarget = some x ∧
+    (Pc.bHintL x p).atList = none := by
+  refine ⟨?_, ?_, ?_, ?_, ?_, ?_, ?_, ?_, ?_, ?_, ?_, ?_, ?_⟩
   · grind [Pc.owner]
   · grind [Pc.owns]
   · grind [Pc.registered]
@@ -199,4 +216,108 @@ theorem force_aux (x p : Nat) :
   · grind [Pc.isBind]
   · grind [Pc.bindParent]
   · grind [Pc.bindTarget]
+  · grind [Pc.atList]
+
+/-! ### the walk over the registered threads -/
+
+theorem nextActFrom_spec (act : Nat → Bool) : ∀ (l : List Nat) (j k : Nat), nextActFrom act l j = some k →
+    j ≤ k ∧ (∃ L, l[k - j]? = some L ∧ act L = true) ∧ ∀ L ∈ l.take (k - j), act L = false := by
+  intro l
+  induction l with
+  | nil => intro j k h; simp [nextActFrom] at h
+  | cons a rest ih =>
+    intro j k h
+    unfold nextActFrom at h
+    split at h
+    · rename_i ha
+      simp at h
+      subst h
+      simp [ha]
+    · rename_i ha
+      obtain ⟨h1, ⟨L, h2, h3⟩, h4⟩ := ih (j + 1) k h
+      have e : k - j = (k - (j + 1)) + 1 := by omega
+      refine ⟨by omega, ⟨L, by rw [e]; simpa using h2, h3⟩, ?_⟩
+      intro L' hL'
+      rw [e, List.take_succ_cons] at hL'
+      rcases List.mem_cons.1 hL' with h' | h'
+      · subst h'; simpa using ha
+      · exact h4 L' h'
+
+theorem nextActFrom_none (act : Nat → Bool) : ∀ (l : List Nat) (j : Nat), nextActFrom act l j = none →
+    ∀ L ∈ l, act L = false := by
+  intro l
+  induction l with
+  | nil => intro j _ L hL; cases hL
+  | cons a rest ih =>
+    intro j h L hL
+    unfold nextActFrom at h
+    split at h
+    · cases h
+    · rename_i ha
+      rcases List.mem_cons.1 hL with h' | h'
+      · subst h'; simpa using ha
+      · exact ih (j + 1) h L h'
+
+/-- the list the walk locks next belongs to a registered thread -/
+theorem nextList_act {cfg : Cfg} {reg : List Nat} {act : Nat → Bool} {src i src' j L : Nat}
+    (h : nextList cfg reg act src i = .cLockList src' j) (hL : reg[j]? = some L) : act L = true := by
+  unfold nextList at h
+  split at h
+  · rename_i k hk
+    cases h
+    obtain ⟨h1, ⟨L', h2, h3⟩, _⟩ := nextActFrom_spec act _ _ _ hk
+    rw [List.getElem?_drop] at h2
+    have : i + (j - i) = j := by omega
+    rw [this, hL] at h2
+    cases h2
+    exact h3
+  · unfold afterLists at h
+    split at h <;> cases h
+
+/-- the walk either locks a further list or leaves the loop -/
+theorem nextList_cases (cfg : Cfg) (reg : List Nat) (act : Nat → Bool) (src i : Nat) :
+    (∃ j, nextList cfg reg act src i = .cLockList src j) ∨ nextList cfg reg act src i = afterLists cfg src := by
+  unfold nextList
+  cases nextActFrom act (List.drop i reg) i with
+  | some j => exact Or.inl ⟨j, rfl⟩
+  | none => exact Or.inr rfl
+
+theorem Pc.atList_inReg {pc : Pc} {i : Nat} : pc.atList = some i → pc.inReg = true := by
+  cases pc <;> simp [Pc.atList, Pc.inReg]
+
+theorem nextList_atList {cfg : Cfg} {reg : List Nat} {act : Nat → Bool} {src k i L : Nat}
+    (h : (nextList cfg reg act src k).atList = some i) (hL : reg[i]? = some L) : act L = true := by
+  have : nextList cfg reg act src k = .cLockList src i := by
+    unfold nextList at h ⊢
+    cases hj : nextActFrom act (List.drop k reg) k with
+    | some j =>
+      simp only [hj] at h ⊢
+      simp [Pc.atList] at h
+      rw [h]
+    | none =>
+      simp only [hj] at h
+      unfold afterLists at h
+      split at h <;> simp [Pc.atList] at h
+  exact nextList_act this hL
+
+/-- a registered thread's list that the walk has not reached yet is still ahead after the walk moves on -/
+theorem nextList_ahead {cfg : Cfg} {reg : List Nat} {act : Nat → Bool} {src i L : Nat} (hL : L ∈ reg.drop i)
+    (ha : act L = true) : ∃ j, nextList cfg reg act src i = .cLockList src j ∧ L ∈ reg.drop j := by
+  unfold nextList
+  split
+  · rename_i k hk
+    refine ⟨k, rfl, ?_⟩
+    obtain ⟨h1, _, h4⟩ := nextActFrom_spec act _ _ _ hk
+    have hsplit : reg.drop i = (reg.drop i).take (k - i) ++ (reg.drop i).drop (k - i) := (List.take_append_drop _ _).symm
+    rw [hsplit] at hL
+    rcases List.mem_append.1 hL with h | h
+    · have := h4 L h
+      rw [ha] at this; cases this
+    · rw [List.drop_drop] at h
+      have : i + (k - i) = k := by omega
+      rwa [this] at h
+  · rename_i hk
+    have := nextActFrom_none act _ _ hk L hL
+    rw [ha] at this; cases this
+
 end TbbVerif.C04
